@@ -299,6 +299,7 @@ def build_in_process(root: str, sources: list[tuple[str, str]], opts_kw: dict[st
             _o.hide_error_codes = "--show-error-codes" not in nosrc
             opts_kw = {"_prebuilt": _o}
         alt_lib = opts_kw.pop("alt_lib", root)
+        real_typeshed = opts_kw.pop("real_typeshed", False)
         if "_prebuilt" in opts_kw:
             options = opts_kw["_prebuilt"]
         elif cli_args is not None:
@@ -315,6 +316,10 @@ def build_in_process(root: str, sources: list[tuple[str, str]], opts_kw: dict[st
             options = make_options(root, **opts_kw)
         srcs = [BuildSource(p, m, None) for p, m in sources]
         msgs: list[str] = []
+        if real_typeshed:
+            # the bundled typeshed instead of the lib-stub fixtures (witness programs that need TypedDict, ParamSpec, ...)
+            options.use_builtins_fixtures = False
+            alt_lib = None
         try:
             res = B.build(srcs, options, alt_lib_path=alt_lib)
             msgs = res.errors
